@@ -17,7 +17,10 @@ def _prune(d):
 
 
 def _key(d):
-    return tuple(sorted((k, round(v, 10)) for k, v in _prune(d).items()))
+    # "the same decomposition" is exact equality of the coefficient dictionaries (what the library documents and
+    # implements); two decompositions that differ by floating-point rounding (0.44 - 0.95 + 1 vs 1 + 0.44 - 0.95)
+    # are different points for the library, hence for the reference model
+    return tuple(sorted((k, float(v).hex()) for k, v in _prune(d).items()))
 
 
 def _add(acc, d, w):
